@@ -398,3 +398,34 @@ func H_Concurrent2() {
 	verif.Assert(verif.Or(replay(a, b), replay(b, a)), "two concurrent calls are equivalent to one of the two sequential orders (results and final state)")
 	verif.Cover("two concurrent calls")
 }
+
+// H_Routing: an operation on one (namespace, type) never changes what another
+// (namespace, type) observes unless the pairs are equal (namespaced/inmem routing).
+func H_Routing() {
+	ctx := context.Background()
+	st := newState()
+	ns1, ty1 := verif.Atom("ns1"), verif.Atom("type1")
+	ns2, ty2 := verif.Atom("ns2"), verif.Atom("type2")
+	id := verif.Atom("id")
+	owner := verif.Atom("owner")
+	verif.Assert(st.Create(ctx, tres.NewAt(ns1, ty1, id, "one"), state.WithCreateOwner(owner)) == nil, "create in the first collection")
+	samePair := verif.And(ns1 == ns2, ty1 == ty2)
+	p2 := resource.NewMetadata(ns2, ty2, id, resource.VersionUndefined)
+	// what the second pair observes
+	r2, err2 := st.Get(ctx, p2)
+	verif.Assert(verif.Iff(err2 == nil, samePair), "a resource is visible exactly under its own (namespace, type)")
+	l2, lerr := st.List(ctx, p2)
+	verif.Assert(lerr == nil && verif.Iff(len(l2.Items) == 1, samePair), "List of another (namespace, type) is unaffected")
+	if err2 == nil {
+		verif.Assert(tres.SpecOf(r2).S == "one", "same pair: same resource")
+		verif.Cover("same pair")
+	} else {
+		verif.Assert(state.IsNotFoundError(err2), "other pair: not found")
+		verif.Cover("different pair")
+		// a second resource with the same id in the other collection is independent
+		verif.Assert(st.Create(ctx, tres.NewAt(ns2, ty2, id, "two"), state.WithCreateOwner(owner)) == nil, "the same id can exist under another (namespace, type)")
+		verif.Assert(st.Destroy(ctx, p2, state.WithDestroyOwner(owner)) == nil, "and be destroyed there")
+		r1, err1 := st.Get(ctx, resource.NewMetadata(ns1, ty1, id, resource.VersionUndefined))
+		verif.Assert(err1 == nil && tres.SpecOf(r1).S == "one" && r1.Metadata().Version().Value() == 1, "operations on another (namespace, type) leave the first resource untouched")
+	}
+}
